@@ -341,6 +341,21 @@ struct Case<'a> {
 
 fn one_case(c: &Case, seed: u64, depth: usize, iters: usize, uni: &Universe, perms: &[Vec<Vec<u8>>], deep: bool, st: &mut PStats) -> Result<(), String> {
     st.cases += 1;
+    match one_case_inner(c, seed, depth, iters, uni, perms, deep, st) {
+        Ok(()) => Ok(()),
+        Err(what) => {
+            // determinism self-check: re-execute the case once and say whether the verdict repeats
+            let mut st2 = PStats::default();
+            match one_case_inner(c, seed, depth, iters, uni, perms, deep, &mut st2) {
+                Err(_) => Err(format!("{} [re-executed: reproduces]", what)),
+                Ok(()) => Err(format!("{} [re-executed: no violation the second time - the scheduler is not deterministic]", what)),
+            }
+        }
+    }
+}
+
+#[allow(clippy::too_many_arguments)]
+fn one_case_inner(c: &Case, seed: u64, depth: usize, iters: usize, uni: &Universe, perms: &[Vec<Vec<u8>>], deep: bool, st: &mut PStats) -> Result<(), String> {
     let nfa = if c.nfa_ids > 0 && c.nfa_ids < perms.len() {
         Some((c.nfa_ids, &perms[c.nfa_ids][..]))
     } else {
@@ -1241,13 +1256,16 @@ pub fn replay(doc: &Value) {
         }
         Some("pct-bound") | Some("pct-frequency") => {
             let prog = CounterProg::from_json(&r["prog"]);
-            let pi = ProgInfo::new(prog.clone());
             let perms = permutations(prog.n());
+            let mut pi = ProgInfo::realistic(prog.clone());
+            pi.k = crate::pct_model::settled_k(&pi, depth, &perms);
             let (mut s, mut t) = (0u64, 0u64);
             let (cnt, total) = model_distribution(&pi, depth, &perms, &mut s, &mut t);
             println!("program {} n={} k={} depth {}: model distribution over schedules ({} (order, change-point set) pairs):", prog.name(), prog.n(), pi.k, depth, total);
             for (l, c) in cnt.iter().enumerate() {
-                println!("  schedule {:?}: {}/{}", pi.tree.path_to(pi.leaves[l]), c, total);
+                if pi.leaves.len() <= 64 || *c == 0 {
+                    println!("  task sequence {:?}: {}/{}", pi.tree.nodes_choices(pi.leaves[l]), c, total);
+                }
             }
             if r["kind"] == "pct-frequency" {
                 let s0: u64 = r["s0"].as_str().and_then(|s| s.parse().ok()).unwrap_or(0);
